@@ -143,21 +143,24 @@ def valueOK (env : Env) : Value → Bool
   | .document => true
   | .element name => ncNameNE (env.localName name)
   | .text s => !s.isEmpty && s.all isXmlChar
-  | .comment s => s.all isXmlChar && !hasInfix ['-', '-'] s && s.getLast? != some '-'
+  -- a raw CR in a comment / PI is written as it is and read back as LF (line-end normalisation)
+  | .comment s => s.all isXmlChar && !hasInfix ['-', '-'] s && s.getLast? != some '-' && !s.contains '\r'
   | .pi target data =>
     env.nsOfName target == Env.noNamespace && ncNameNE (env.localName target) &&
     (env.localName target).map asciiLowerChar != ['x', 'm', 'l'] &&
     (match data with
      | none => true
-     | some d => !d.isEmpty && !(d.head?.any isXmlSpace) && d.all isXmlChar && !hasInfix ['?', '>'] d)
+     | some d => !d.isEmpty && !(d.head?.any isXmlSpace) && d.all isXmlChar && !hasInfix ['?', '>'] d &&
+        !d.contains '\r')
   | .attribute name v =>
     ncNameNE (env.localName name) && v.all isXmlChar &&
     !(env.nsOfName name == Env.noNamespace && env.localName name == xmlnsName) &&
     -- the parser ID-normalises the value of `xml:id`
     (!isXmlIdName env name || normalizeXmlId v == v)
   | .namespace p ns =>
-    -- the reserved `xml` binding is never written: it cannot be a node; `xmlns:p=""` is not XML 1.0
-    p != Env.xmlPrefix && ns != Env.xmlNamespace &&
+    -- the reserved `xml` binding is never written: it cannot be a node; `xmlns:p=""` is not XML 1.0;
+    -- nothing can be bound to the xmlns namespace name (all rejected by the parser)
+    p != Env.xmlPrefix && ns != Env.xmlNamespace && env.namespaceStr ns != xmlnsNamespaceUri &&
     (p == Env.emptyPrefix ||
       (ncNameNE (env.prefixStr p) && env.prefixStr p != xmlnsName && ns != Env.noNamespace)) &&
     (ns == Env.noNamespace || !(env.namespaceStr ns).isEmpty) && (env.namespaceStr ns).all isXmlChar
